@@ -2,7 +2,7 @@
 //! files, known-findings matching and evidence.
 
 use crate::engine::{self, AnyCase, Found, Tier};
-use crate::outcome::{install_panic_hook, Mon, Violation};
+use crate::outcome::{beat, install_panic_hook, op_hang_limit, start_watchdog, Mon, Violation, HANG_EXIT};
 use crate::prng::splitmix64;
 use crate::shrink;
 use serde::{Deserialize, Serialize};
@@ -106,6 +106,7 @@ pub fn minimise(found: &Found, run_index: u64, budget: usize) -> Minimised {
                 return false;
             }
             tries += 1;
+            beat();
             if tries % 16 == 0 {
                 // heartbeat for the parent's hang backstop
                 let mut o = std::io::stdout().lock();
@@ -170,6 +171,7 @@ pub fn run_range(
             continue;
         }
         progress(i);
+        beat();
         let mut mon = Mon::new(false);
         mon.crash_file = crash_file.clone();
         let mut found = Vec::new();
@@ -383,7 +385,12 @@ pub fn run_batch(exe: &Path, prop: &str, tier: Tier, seed: u64, count: u64, work
                 slots[s].retired = true;
                 live -= 1;
             } else {
-                let how = if slots[s].hung {
+                if st.code() == Some(HANG_EXIT) {
+                    slots[s].hung = true;
+                }
+                let how = if st.code() == Some(HANG_EXIT) {
+                    format!("no API call started for {} s (in-process hang backstop)", op_hang_limit().as_secs())
+                } else if slots[s].hung {
                     format!("no progress for {} s (hang backstop)", hang_limit.as_secs())
                 } else {
                     match exit_signal(&st) {
@@ -577,6 +584,7 @@ pub fn replay(exe: &Path, path: &Path) -> i32 {
 /// Child mode: execute a case file and exit 0/1 (or die).
 pub fn replay_case(path: &Path) -> i32 {
     install_panic_hook();
+    start_watchdog(op_hang_limit());
     let s = std::fs::read_to_string(path).unwrap_or_default();
     let case: AnyCase = match serde_json::from_str::<ReplayFile>(&s) {
         Ok(rf) => rf.case,
@@ -619,6 +627,8 @@ pub fn run_child(cmd: &mut Command, limit: Duration) -> ChildEnd {
             Ok(Some(st)) => {
                 return match exit_signal(&st) {
                     Some(s) => ChildEnd::Signaled(s),
+                    // stopped by its own watchdog: the same as running into our limit
+                    None if st.code() == Some(HANG_EXIT) => ChildEnd::TimedOut,
                     None => ChildEnd::Exited(st.code().unwrap_or(-1)),
                 }
             }
@@ -933,6 +943,7 @@ fn expected_probes(prop: &str) -> Vec<&'static str> {
 // worker / one modes
 
 pub fn worker_main(prop: &str, tier: Tier, seed: u64, start: u64, end: u64, stride: u64, skip: &[u64]) -> i32 {
+    start_watchdog(op_hang_limit());
     let stdout = std::io::stdout();
     // Results are flushed per segment, so that a process death loses (and the
     // parent re-runs) at most one segment of this worker's share.
@@ -969,6 +980,7 @@ pub fn worker_main(prop: &str, tier: Tier, seed: u64, start: u64, end: u64, stri
 }
 
 pub fn one_main(prop: &str, tier: Tier, seed: u64, index: u64, crash_file: &Path) -> i32 {
+    start_watchdog(op_hang_limit());
     let agg = run_range(prop, tier, seed, index, index + 1, 1, &[], false, &mut BTreeSet::new(), Some(crash_file.to_path_buf()), |_| {});
     println!("{}", serde_json::to_string(&agg).unwrap());
     0
